@@ -26,7 +26,7 @@ import common
 from common import ModelErr
 
 PROP = "C19"
-CLAIMED = False
+CLAIMED = True
 ENGINE = "Cache"
 DESIGN_REF = "DESIGN.md §5.12"
 TECHNIQUE = (
